@@ -121,6 +121,10 @@ func (c *recClient) Do(req *http.Request) (*http.Response, error) {
 		if strings.Contains(cp.URL, "0") {
 			return nil, errors.New("verif: connection refused")
 		}
+		if strings.Contains(cp.URL, "2") {
+			// ... or names the server only, as a resolver's error does
+			return nil, fmt.Errorf("dial tcp: lookup %s: no such host", req.URL.Hostname())
+		}
 		return nil, fmt.Errorf("verif: transport error for %s", cp.URL)
 	}
 	return &http.Response{StatusCode: st, Status: fmt.Sprintf("%d %s", st, http.StatusText(st)), Body: io.NopCloser(&slowReader{b: servedBody(cp.URL)}), Header: http.Header{}}, nil
